@@ -2,11 +2,12 @@
 # re-verifies every seeded change against /repo's HEAD (applies, suite green, demo fails with
 # it and passes without) and runs the owning check(s) on it; writes seeded/RESULTS.txt
 cd /verif
-out=seeded/RESULTS.txt; tmp=/tmp/seed_all.$$; mkdir -p $tmp
-ls -d seeded/*/ | xargs -P 5 -I{} sh -c 'tools/seed_verify.sh {} > '$tmp'/$(basename {}).verify 2>&1'
+out=${OUT:-seeded/RESULTS.txt}; tmp=/tmp/seed_all.$$; mkdir -p $tmp
+list=${LIST:-$(ls -d seeded/*/)}
+echo $list | tr ' ' '\n' | xargs -P 5 -I{} sh -c 'tools/seed_verify.sh {} > '$tmp'/$(basename {}).verify 2>&1'
 {
 echo "# seed | verification at $(git -C /repo rev-parse --short HEAD) | check verdicts"
-for d in seeded/*/; do
+for d in $list; do
   n=$(basename $d)
   props=$(python3 -c "import json;m=json.load(open('$d/meta.json'));print(' '.join([m['property']]+m.get('also_check',[])))")
   ev=$(tools/seed_eval.sh $d $props 2>&1 | grep "^$n" | sed "s/^$n //" | cut -c1-260 | tr '\n' ';')
